@@ -465,16 +465,34 @@ Section HistoryProofs.
     unfold fitsP. lia.
   Qed.
 
+  Lemma sync_wf : forall b s, wf s -> wf (sync T b s).
+  Proof. intros [|] s W; cbn; [|exact W]. destruct W as [H1 H2 H3 H4 H5]. constructor; cbn; auto. Qed.
+
+  Lemma lasdata_assign_wf : forall b s a vals, wf s -> wf (fst (lasdata_assign T store tdefault b s a vals)).
+  Proof.
+    intros b s a vals W. unfold Scaling.lasdata_assign. apply assign_rec_wf.
+    destruct (sync_wf b s W) as [H1 H2 H3 H4 H5]. constructor; cbn [heap h_s h_o r_s r_o ints]; auto. apply grow_fit. exact H5.
+  Qed.
+
+  Lemma assign_axes_wf : forall axes s k vals, wf s -> wf (fst (assign_axes T store tdefault s axes k vals)).
+  Proof.
+    intros axes. induction axes as [|a r IH]; intros s k vals W; cbn [Scaling.assign_axes]; [exact W|].
+    pose proof (lasdata_assign_wf false s a (nth k vals []) W) as W1.
+    destruct (lasdata_assign T store tdefault false s a (nth k vals [])) as [s1 x]. cbn [fst] in W1.
+    destruct x; [apply IH; exact W1|exact W1|exact W1].
+  Qed.
+
   Lemma step_wf : forall s o, wf s -> wf (fst (step s o)).
   Proof.
-    intros s o W. destruct o as [a|a|ax v|ax v|ax vals|ax vals|ns no| |ws wo]; cbn [Scaling.step].
+    intros s o W. destruct o as [a|a|ax v|ax v|ax vals|vals|ax vals|ns no| |ws wo]; cbn [Scaling.step].
     - destruct (alloc_wf s a W) as [[H1 H2 H3 H4 H5] [Hi _]]. destruct (alloc s a) as [s1 i] eqn:A. cbn in *.
       constructor; cbn; auto.
     - destruct (alloc_wf s a W) as [[H1 H2 H3 H4 H5] [Hi _]]. destruct (alloc s a) as [s1 i] eqn:A. cbn in *.
       constructor; cbn; auto.
     - destruct W as [H1 H2 H3 H4 H5]. cbn. constructor; cbn; rewrite ?set_at_length; auto.
     - destruct W as [H1 H2 H3 H4 H5]. cbn. constructor; cbn; rewrite ?set_at_length; auto.
-    - apply assign_rec_wf. destruct W as [H1 H2 H3 H4 H5]. constructor; cbn [heap h_s h_o r_s r_o ints]; auto. apply grow_fit. exact H5.
+    - apply lasdata_assign_wf. exact W.
+    - apply assign_axes_wf. apply sync_wf. exact W.
     - apply assign_rec_wf. exact W.
     - assert (A1 : exists s1 sid, (match ns with Some a => alloc s a | None => (s, r_s s) end) = (s1, sid)
                    /\ wf s1 /\ (sid < length (heap s1))%nat).
@@ -607,8 +625,55 @@ Section HistoryProofs.
     /\ r_s (fst r) = h_s s /\ r_o (fst r) = h_o s      (* the record now uses the header's arrays, even when the assignment fails *)
     /\ assigned (grow (ints s) (length vals)) (get (heap s) (h_s s)) (get (heap s) (h_o s)) a vals (ints (fst r)) (snd r).
   Proof.
-    intros s a vals. cbn [Scaling.step].
+    intros s a vals. cbn [Scaling.step]. unfold Scaling.lasdata_assign. change gen_setattr_syncs with true.
+    cbn [Scaling.sync heap h_s h_o r_s r_o ints].
     apply (assign_rec_spec (mkst (heap s) (h_s s) (h_o s) (h_s s) (h_o s) (grow (ints s) (length vals)))).
+  Qed.
+
+  (* las.xyz = value is las.x = column 0; las.y = column 1; las.z = column 2, stopping at the first error *)
+  Definition then_assign (r : st * out T) (a : nat) (vals : list T) : st * out T :=
+    match snd r with ONone => step (fst r) (Assign a vals) | _ => r end.
+
+  Lemma assign_rec_refs : forall s a vals,
+    r_s (fst (assign_rec s a vals)) = r_s s /\ r_o (fst (assign_rec s a vals)) = r_o s
+    /\ h_s (fst (assign_rec s a vals)) = h_s s /\ h_o (fst (assign_rec s a vals)) = h_o s.
+  Proof. intros s a vals. destruct (assign_rec_spec s a vals) as (A & B & C & D & E & _). auto. Qed.
+
+  Lemma sync_synced : forall s, r_s s = h_s s -> r_o s = h_o s -> sync T true s = s.
+  Proof. intros [hp hs ho rs ro it] E1 E2. cbn in *. subst. reflexivity. Qed.
+
+  Lemma step_assign_xyz_seq : forall s vals,
+    step s (AssignXYZ vals) =
+    then_assign (then_assign (step s (Assign 0 (nth 0 vals []))) 1 (nth 1 vals [])) 2 (nth 2 vals []).
+  Proof.
+    intros s vals. cbn [Scaling.step]. change gen_xyz_syncs with true. change gen_setattr_syncs with true.
+    change gen_xyz_axes with [0; 1; 2]%nat. cbn [Scaling.assign_axes].
+    (* the first axis: both sides assign on the synced record *)
+    assert (E0 : lasdata_assign T store tdefault false (sync T true s) 0 (nth 0 vals [])
+                 = lasdata_assign T store tdefault true s 0 (nth 0 vals [])).
+    { unfold Scaling.lasdata_assign. cbn [Scaling.sync heap h_s h_o r_s r_o ints]. reflexivity. }
+    rewrite E0.
+    assert (Synced : forall s' a v, r_s s' = h_s s' -> r_o s' = h_o s' ->
+              lasdata_assign T store tdefault false s' a v = lasdata_assign T store tdefault true s' a v
+              /\ r_s (fst (lasdata_assign T store tdefault true s' a v)) = h_s (fst (lasdata_assign T store tdefault true s' a v))
+              /\ r_o (fst (lasdata_assign T store tdefault true s' a v)) = h_o (fst (lasdata_assign T store tdefault true s' a v))).
+    { intros s' a v E1 E2. unfold Scaling.lasdata_assign. rewrite (sync_synced s' E1 E2). cbn [Scaling.sync].
+      split; [reflexivity|].
+      destruct (assign_rec_refs (mkst (heap s') (h_s s') (h_o s') (r_s s') (r_o s') (grow (ints s') (length v))) a v)
+        as (A & B & C & D). cbn [heap h_s h_o r_s r_o ints] in *. rewrite A, B, C, D. auto. }
+    assert (S0 : r_s (fst (lasdata_assign T store tdefault true s 0 (nth 0 vals []))) = h_s (fst (lasdata_assign T store tdefault true s 0 (nth 0 vals [])))
+                 /\ r_o (fst (lasdata_assign T store tdefault true s 0 (nth 0 vals []))) = h_o (fst (lasdata_assign T store tdefault true s 0 (nth 0 vals [])))).
+    { unfold Scaling.lasdata_assign. cbn [Scaling.sync].
+      destruct (assign_rec_refs (mkst (heap s) (h_s s) (h_o s) (h_s s) (h_o s) (grow (ints s) (length (nth 0 vals [])))) 0 (nth 0 vals []))
+        as (A & B & C & D). cbn [heap h_s h_o r_s r_o ints] in *. rewrite A, B, C, D. auto. }
+    unfold then_assign. cbn [Scaling.step]. change gen_setattr_syncs with true.
+    destruct (lasdata_assign T store tdefault true s 0 (nth 0 vals [])) as [s1 x1]. cbn [fst snd] in *.
+    destruct x1; [|reflexivity|reflexivity].
+    destruct S0 as [E1 E2]. destruct (Synced s1 1%nat (nth 1 vals []) E1 E2) as (-> & F1 & F2).
+    destruct (lasdata_assign T store tdefault true s1 1 (nth 1 vals [])) as [s2 x2]. cbn [fst snd] in *.
+    destruct x2; [|reflexivity|reflexivity].
+    destruct (Synced s2 2%nat (nth 2 vals []) F1 F2) as (-> & _ & _).
+    destruct (lasdata_assign T store tdefault true s2 2 (nth 2 vals [])) as [s3 x3]. destruct x3; reflexivity.
   Qed.
 
   Lemma step_rec_assign_spec : forall s a vals,
@@ -1019,3 +1084,25 @@ Proof.
   intros ops s0 ns no W s. apply step_change_scaling_axes; [exact f_restore_fits|exact f_rechecked_err|].
   apply f_run_wf. exact W.
 Qed.
+
+(* las.xyz = value, both instances: the three attribute assignments in sequence, stopping at the first error *)
+Definition q_then_assign := then_assign Q q_present q_store_checked q_restore_checked Qeq_bool 0%Q.
+Definition f_then_assign := then_assign fl f_present f_store_checked f_restore_checked fl_eqb None.
+
+Lemma q_assign_xyz_seq : forall s vals,
+  q_step s (AssignXYZ vals) =
+  q_then_assign (q_then_assign (q_step s (Assign 0 (nth 0 vals []))) 1 (nth 1 vals [])) 2 (nth 2 vals []).
+Proof. intros s vals. apply step_assign_xyz_seq. exact q_store_err. Qed.
+
+Lemma f_assign_xyz_seq : forall s vals,
+  f_step s (AssignXYZ vals) =
+  f_then_assign (f_then_assign (f_step s (Assign 0 (nth 0 vals []))) 1 (nth 1 vals [])) 2 (nth 2 vals []).
+Proof. intros s vals. apply step_assign_xyz_seq. exact f_store_err. Qed.
+
+Lemma then_assign_def : forall T present store restore teqb d r a vals,
+  then_assign T present store restore teqb d r a vals =
+  match snd r with ONone => step T present store restore teqb d (fst r) (Assign a vals) | _ => r end.
+Proof. reflexivity. Qed.
+
+Lemma sync_tables : gen_setattr_syncs = true /\ gen_xyz_syncs = true /\ gen_xyz_axes = [0; 1; 2]%nat.
+Proof. repeat split; reflexivity. Qed.
